@@ -176,7 +176,7 @@ class World:
         base = gen.pair_fc(sc, 4.6)
         self.fc_pool = []
         for k in range(6):
-            noise = rs.normal(scale=0.05 * (k > 0), size=base.shape)
+            noise = rs.normal(scale=0.05, size=base.shape)   # every entry has an asymmetric part: the symmetrisers change it
             self.fc_pool.append(np.array(base * (1.0 + 0.15 * k) + noise, dtype="double", order="C"))
         self.nac_pool = []
         for k in range(6):
@@ -1301,15 +1301,12 @@ def symbols(cls, n0, full):
             "setenergies": lambda p: [("setenergies", 1)],
             "producewith": lambda p: [("producewith", 2)],
             "mutds": lambda p: [("mut", 2, 1)],
-            "qdisps": lambda p: [("q", "disps")],
             "mesh": lambda p: [("q", "mesh")],
             "band": lambda p: [("q", "band")],
             "tp": lambda p: [("q", "tp")],
             "tp-classical": lambda p: [("q", "tp", 1)],
             "dos-sigma": lambda p: [("q", "dos", 1)],
             "dos": lambda p: [("q", "dos")],
-            "getmesh": lambda p: [("q", "getmesh")],
-            "gettp": lambda p: [("q", "gettp")],
             "generate": lambda p: [("generate", 1)],
             "producec": lambda p: [("producec",)],
             "setfc-compact": lambda p: [("new", "fc", 51, 1), ("setfc", p)],
@@ -1608,6 +1605,13 @@ def main(run):
     for i in range(40 if thorough else 6):
         w = worlds[i % 2]
         cases.append((w, random_history(rng, w, rng.randint(4, 16)), "random-fsf", None, True))
+    # a symmetriser after a query (the lazily built short-range constants exist), followed by every kind of query
+    for w in worlds[:2]:
+        for cls in ("plain", "wang", "gl"):
+            for symop in (("sym", 1), ("sym", 2), ("symsg",), ("cut", 1)):
+                ops = list(prefix_for(cls)) + [("q", "gv"), symop, ("q", "freq"), ("q", "gv"), ("q", "mesh"), ("q", "band"), ("q", "tp"), ("q", "dos"),
+                                               ("q", "fc"), ("q", "getmesh"), ("q", "gettp")]
+                cases.append((w, ops, "symmetrise-after-query", None, False))
     # refits after new forces; result objects asked again with other options on the same mesh
     for i in range(90 if thorough else 12):
         w = worlds[i % 2]
